@@ -32,6 +32,11 @@ Proof.
   rewrite H1. specialize (H2 a). destruct (q a), (r a); simpl in *; try discriminate;
   rewrite ?cnt_cons; lia.
 Qed.
+Lemma cnt_filter_true (f : utxo -> bool) l x : f x = true -> cnt (filter f l) x = cnt l x.
+Proof.
+  intro Hx. induction l; simpl; [reflexivity|]. destruct (f a) eqn:Fa; rewrite !cnt_cons; [lia|].
+  unfold one. destruct (utxo_eq_dec a x); [subst; congruence | lia].
+Qed.
 Lemma one_self u : one u u = 1%nat.
 Proof. unfold one; destruct (utxo_eq_dec u u); congruence. Qed.
 Lemma one_le u x : (one u x <= 1)%nat.
@@ -643,6 +648,247 @@ Section Sel2.
     - apply random_draw_complete; auto.
   Qed.
 End Sel2.
+
+(* ------------------------------------------------------------------ the sqlite chooser *)
+Section Sq.
+  Variable fpb : Z.
+  Notation eff := (eff fpb).
+  Notation sum_eff := (sum_eff fpb).
+
+  Lemma cnt_sq_insert y l x : cnt (sq_insert y l) x = (one y x + cnt l x)%nat.
+  Proof. induction l; simpl; [rewrite cnt_cons; reflexivity|]. destruct (sq_le y a); rewrite !cnt_cons; rewrite ?IHl; lia. Qed.
+  Lemma cnt_sq_sort l x : cnt (sq_sort l) x = cnt l x.
+  Proof. induction l; simpl; [reflexivity|]. rewrite cnt_sq_insert, cnt_cons, IHl; reflexivity. Qed.
+  Lemma sum_sq_insert y l : sum_eff (sq_insert y l) = eff y + sum_eff l.
+  Proof. induction l; simpl; [reflexivity|]. destruct (sq_le y a); simpl; rewrite ?IHl; lia. Qed.
+  Lemma sum_sq_sort l : sum_eff (sq_sort l) = sum_eff l.
+  Proof. induction l; simpl; [reflexivity|]. rewrite sum_sq_insert, IHl; reflexivity. Qed.
+  Lemma in_sq_insert y l u : In u (sq_insert y l) <-> u = y \/ In u l.
+  Proof. induction l; simpl; [intuition|]. destruct (sq_le y a); simpl; rewrite ?IHl; intuition. Qed.
+  Lemma in_sq_sort l u : In u (sq_sort l) <-> In u l.
+  Proof. induction l; simpl; [tauto|]. rewrite in_sq_insert, IHl. intuition. Qed.
+
+  Lemma sq_scan_spec rows : forall a ra taken unconf ra1 taken1 unconf1 early,
+    sq_scan fpb rows a ra taken unconf = (ra1, taken1, unconf1, early) ->
+    ra1 - ra = sum_eff taken1 - sum_eff taken /\
+    (forall x, (cnt taken1 x + cnt unconf1 x <= cnt taken x + cnt unconf x + cnt rows x)%nat) /\
+    (early = true -> a <= ra1) /\
+    (early = false -> ra1 + sum_eff unconf1 = ra + sum_eff unconf + sum_eff rows).
+  Proof.
+    induction rows as [|u r IH]; intros a ra taken unconf ra1 taken1 unconf1 early; simpl.
+    - intros H; inversion H; subst. repeat split; try lia; try discriminate.
+    - destruct (uverified u).
+      + destruct (_ >=? a) eqn:E.
+        * intros H; inversion H; subst. simpl. unfold eff. split; [lia|]. split; [|split; [intros _; lia | discriminate]].
+          intro x; rewrite !cnt_cons; lia.
+        * intros H. apply IH in H. destruct H as [H1 [H2 [H3 H4]]]. simpl in *. unfold eff in *.
+          split; [lia|]. split; [|split; [assumption | intro He; specialize (H4 He); lia]].
+          intro x; specialize (H2 x); rewrite !cnt_cons in *; lia.
+      + intros H. apply IH in H. destruct H as [H1 [H2 [H3 H4]]]. simpl in *.
+        split; [lia|]. split; [|split; [assumption | intro He; specialize (H4 He); lia]].
+        intro x; specialize (H2 x); rewrite !cnt_cons in *; lia.
+  Qed.
+
+  Lemma sq_unconf_spec l : forall a ra taken ra2 taken2,
+    sq_unconf fpb l a ra taken = (ra2, taken2) ->
+    ra2 - ra = sum_eff taken2 - sum_eff taken /\
+    (forall x, (cnt taken2 x <= cnt taken x + cnt l x)%nat) /\
+    (ra2 < a -> ra2 = ra + sum_eff l).
+  Proof.
+    induction l as [|u r IH]; intros a ra taken ra2 taken2; simpl.
+    - intros H; inversion H; subst. repeat split; try lia.
+    - destruct (ra <? a) eqn:E.
+      + intros H. apply IH in H. destruct H as [H1 [H2 H3]]. simpl in *. unfold eff in *.
+        split; [lia|]. split; [|intro Hlt; specialize (H3 Hlt); lia].
+        intro x; specialize (H2 x); rewrite !cnt_cons in *; lia.
+      + intros H; inversion H; subst. split; [lia|]. split; [intro x; lia | lia].
+  Qed.
+
+  Lemma sq_get_spec win a ra taken ra1 taken1 :
+    sq_get fpb win a ra taken = (ra1, taken1) ->
+    ra1 - ra = sum_eff taken1 - sum_eff taken /\
+    (forall x, (cnt taken1 x <= cnt taken x + cnt win x)%nat) /\
+    (ra1 < a -> ra1 = ra + sum_eff win).
+  Proof.
+    unfold sq_get. destruct (sq_scan fpb win a ra taken []) as [[[rs ts] us] early] eqn:S.
+    apply sq_scan_spec in S. destruct S as [S1 [S2 [S3 S4]]].
+    destruct early.
+    - intros H; inversion H; subst. split; [assumption|]. split; [|specialize (S3 eq_refl); lia].
+      intro x; specialize (S2 x); rewrite cnt_nil in S2; lia.
+    - intros H. apply sq_unconf_spec in H. destruct H as [U1 [U2 U3]].
+      rewrite sum_eff_rev in U3. specialize (S4 eq_refl). simpl in S4.
+      split; [lia|]. split; [|intro Hlt; specialize (U3 Hlt); lia].
+      intro x; specialize (S2 x); specialize (U2 x); rewrite cnt_rev in U2; rewrite cnt_nil in S2; lia.
+  Qed.
+
+  Lemma in_window_split f0 f1 f2 u : f0 <= f1 -> f1 <= f2 ->
+    in_window f0 f2 u = in_window f0 f1 u || in_window f1 f2 u.
+  Proof.
+    intros H1 H2. unfold in_window.
+    destruct (f0 <=? uamount u) eqn:A, (uamount u <? f2) eqn:B, (uamount u <? f1) eqn:C, (f1 <=? uamount u) eqn:D; simpl; try reflexivity; lia.
+  Qed.
+  Lemma in_window_disj f0 f1 f2 u : in_window f0 f1 u && in_window f1 f2 u = false.
+  Proof.
+    unfold in_window.
+    destruct (f0 <=? uamount u) eqn:A, (uamount u <? f2) eqn:B, (uamount u <? f1) eqn:C, (f1 <=? uamount u) eqn:D; simpl; try reflexivity; lia.
+  Qed.
+  Lemma sum_filter_split (p q r : utxo -> bool) l :
+    (forall u, p u = q u || r u) -> (forall u, q u && r u = false) ->
+    sum_eff (filter p l) = sum_eff (filter q l) + sum_eff (filter r l).
+  Proof.
+    intros H1 H2; induction l; simpl; [reflexivity|].
+    rewrite H1. specialize (H2 a). destruct (q a), (r a); simpl in *; try discriminate; lia.
+  Qed.
+
+  (* soundness of the window loop: what is taken comes from the rows at or above the first floor, each row
+     at most once, and the running total is the effective sum of what is taken *)
+  Lemma sq_loop_sound f0 rows a : forall fuel rd taken floor mult gap rd1 taken1,
+    sq_loop fpb fuel rows a rd taken floor mult gap = (rd1, taken1) ->
+    0 <= f0 <= floor -> 1 <= mult ->
+    (forall x, (cnt taken x <= cnt (filter (in_window f0 floor) rows) x)%nat) ->
+    rd1 - rd = sum_eff taken1 - sum_eff taken /\
+    (forall x, (cnt taken1 x <= cnt rows x)%nat).
+  Proof.
+    induction fuel as [|f IH]; intros rd taken floor mult gap rd1 taken1; simpl.
+    - intros H _ _ Hc; inversion H; subst. split; [lia|]. intro x. specialize (Hc x). pose proof (cnt_filter_le (in_window f0 floor) rows x). lia.
+    - destruct ((rd <? a) && (gap <? 5) && (floor * mult <? SQLITE_MAX_INTEGER)).
+      + destruct (sq_get fpb (filter (in_window floor (floor * mult)) rows) a rd taken) as [rd2 taken2] eqn:G.
+        apply sq_get_spec in G. destruct G as [G1 [G2 _]].
+        intros H Hf Hm Hc.
+        assert (Hfl : floor <= floor * mult) by nia.
+        assert (Hc2 : forall x, (cnt taken2 x <= cnt (filter (in_window f0 (floor * mult)) rows) x)%nat).
+        { intro x. rewrite (cnt_filter_split (in_window f0 (floor * mult)) (in_window f0 floor) (in_window floor (floor * mult))).
+          - specialize (G2 x). specialize (Hc x). lia.
+          - intro u. apply in_window_split; lia.
+          - intro u. apply in_window_disj. }
+        destruct (rd =? rd2).
+        * apply IH in H; [|lia|nia|assumption]. destruct H as [H1 H2]. split; [lia | assumption].
+        * apply IH in H; [|lia|lia|assumption]. destruct H as [H1 H2]. split; [lia | assumption].
+      + intros H _ _ Hc; inversion H; subst. split; [lia|]. intro x. specialize (Hc x). pose proof (cnt_filter_le (in_window f0 floor) rows x). lia.
+  Qed.
+
+  Theorem sqlite_sound rows a floor :
+    0 <= floor ->
+    let r := sqlite_select fpb rows a floor in
+    submset r rows /\ (r <> [] -> a <= sum_eff r) /\ (forall u, In u r -> utype0 u = true).
+  Proof.
+    intros Hf. unfold sqlite_select.
+    destruct (sq_loop fpb SQ_FUEL (sq_sort (filter utype0 rows)) a 0 [] floor 100 0) as [rd taken] eqn:L.
+    apply (sq_loop_sound floor) in L; [|lia|lia|intro x; rewrite cnt_nil; lia].
+    destruct L as [L1 L2]. simpl in L1.
+    destruct (rd >=? a) eqn:E; simpl.
+    - split; [|split].
+      + intro x. rewrite cnt_rev. specialize (L2 x). rewrite cnt_sq_sort in L2. pose proof (cnt_filter_le utype0 rows x). lia.
+      + intros _. rewrite sum_eff_rev. lia.
+      + intros u Hu. apply in_rev in Hu.
+        assert (In u (filter utype0 rows)).
+        { apply (count_occ_In utxo_eq_dec). apply In_cnt in Hu. specialize (L2 u). rewrite cnt_sq_sort in L2. unfold cnt in *. lia. }
+        apply filter_In in H. tauto.
+    - split; [apply submset_nil | split; [congruence | intros u []]].
+  Qed.
+
+  (* ---- reach of the windows (partial completeness) *)
+  Definition SQ_REACH : Z := 92233720369.
+
+  Definition phase_ok (floor mult gap : Z) : Prop :=
+    (gap = 0 /\ mult = 100 /\ 1 <= floor) \/ (gap = 1 /\ mult = 10000 /\ 100 <= floor) \/
+    (gap = 2 /\ mult = 100000000 /\ 1000000 <= floor) \/
+    (gap = 3 /\ mult = 10000000000000000 /\ 100000000000000 <= floor).
+
+  Lemma sq_loop_reach rows a : forall fuel k rd taken floor mult gap rd1 taken1,
+    sq_loop fpb fuel rows a rd taken floor mult gap = (rd1, taken1) ->
+    phase_ok floor mult gap -> 100 ^ (Z.of_nat k) <= floor -> (11 <= k + fuel)%nat ->
+    (rd < a -> rd = sum_eff (filter (in_window 1 floor) rows)) ->
+    rd1 < a ->
+    exists floor1, SQ_REACH <= floor1 /\ rd1 = sum_eff (filter (in_window 1 floor1) rows).
+  Proof.
+    induction fuel as [|f IH]; intros k rd taken floor mult gap rd1 taken1; simpl.
+    - intros H _ Hk Hf Hs Hlt; inversion H; subst. exists floor. split; [|apply Hs; assumption].
+      assert (100 ^ 11 <= 100 ^ Z.of_nat k) by (apply Z.pow_le_mono_r; lia).
+      assert (E : 100 ^ 11 = 10000000000000000000000) by reflexivity. unfold SQ_REACH. lia.
+    - destruct ((rd <? a) && (gap <? 5) && (floor * mult <? SQLITE_MAX_INTEGER)) eqn:Gd.
+      + apply andb_prop in Gd. destruct Gd as [Gd G3]. apply andb_prop in Gd. destruct Gd as [G1 G2].
+        destruct (sq_get fpb (filter (in_window floor (floor * mult)) rows) a rd taken) as [rd2 taken2] eqn:G.
+        apply sq_get_spec in G. destruct G as [_ [_ G4]].
+        intros H Hp Hk Hf Hs Hlt.
+        assert (Hm : 100 <= mult /\ 1 <= floor) by (destruct Hp as [?|[?|[?|?]]]; lia).
+        assert (Hk2 : 100 ^ Z.of_nat (S k) <= floor * mult).
+        { rewrite Nat2Z.inj_succ, Z.pow_succ_r by lia. nia. }
+        assert (Hs2 : rd2 < a -> rd2 = sum_eff (filter (in_window 1 (floor * mult)) rows)).
+        { intro Hlt2. rewrite (sum_filter_split (in_window 1 (floor * mult)) (in_window 1 floor) (in_window floor (floor * mult))).
+          - rewrite <- Hs by lia. apply G4; assumption.
+          - intro u. apply in_window_split; nia.
+          - intro u. apply in_window_disj. }
+        unfold SQLITE_MAX_INTEGER in G3.
+        destruct (rd =? rd2).
+        * apply (IH (S k)) in H; try assumption; [|lia].
+          destruct Hp as [[-> [-> ?]]|[[-> [-> ?]]|[[-> [-> ?]]|[-> [-> ?]]]]].
+          -- right; left. lia.
+          -- right; right; left. lia.
+          -- right; right; right. lia.
+          -- exfalso. lia.
+        * apply (IH (S k)) in H; try assumption; [|lia]. left. nia.
+      + intros H Hp Hk Hf Hs Hlt; inversion H; subst. exists floor. split; [|apply Hs; assumption].
+        apply andb_false_iff in Gd. destruct Gd as [Gd|Gd].
+        * apply andb_false_iff in Gd. destruct Gd as [Gd|Gd]; [lia|].
+          destruct Hp as [?|[?|[?|?]]]; lia.
+        * unfold SQLITE_MAX_INTEGER, SQ_REACH in *. destruct Hp as [?|[?|[?|?]]]; lia.
+  Qed.
+
+  Lemma filter_all {A} (p : A -> bool) l : (forall x, In x l -> p x = true) -> filter p l = l.
+  Proof. induction l; simpl; intro H; [reflexivity|]. rewrite (H a) by (left; reflexivity). f_equal. apply IHl. intros; apply H; right; assumption. Qed.
+
+  Lemma submset_sum_le r : forall l, submset r l -> (forall u, In u l -> 0 <= eff u) -> sum_eff r <= sum_eff l.
+  Proof.
+    induction r as [|u r IH]; intros l S P; simpl.
+    - apply sum_eff_nonneg; assumption.
+    - assert (Hin : In u l).
+      { apply (count_occ_In utxo_eq_dec). specialize (S u). rewrite cnt_cons, one_self in S. unfold cnt in S. lia. }
+      apply in_split in Hin. destruct Hin as [l1 [l2 ->]].
+      rewrite sum_eff_app. simpl.
+      assert (sum_eff r <= sum_eff (l1 ++ l2)).
+      { apply IH.
+        - intro x. specialize (S x). rewrite !cnt_app, !cnt_cons in *. lia.
+        - intros v Hv. apply P. apply in_app_iff in Hv. apply in_app_iff. simpl. tauto. }
+      rewrite sum_eff_app in H. lia.
+  Qed.
+
+  (* if every plain output is worth more than its input fee and lies below the reach of the windows,
+     the sqlite chooser comes back empty exactly when the plain outputs cannot cover the amount *)
+  Theorem sqlite_complete_partial rows a :
+    0 <= fpb -> 0 < a ->
+    (forall u, In u rows -> utype0 u = true -> 0 < eff u /\ uamount u < SQ_REACH) ->
+    (sqlite_select fpb rows a 1 = [] <-> sum_eff (filter utype0 rows) < a).
+  Proof.
+    intros Hfpb Ha Hrows. split.
+    - unfold sqlite_select.
+      destruct (sq_loop fpb SQ_FUEL (sq_sort (filter utype0 rows)) a 0 [] 1 100 0) as [rd taken] eqn:L.
+      pose proof L as L0. apply (sq_loop_sound 1) in L0; [|lia|lia|intro x; rewrite cnt_nil; lia].
+      destruct L0 as [L1 _]. simpl in L1.
+      destruct (rd >=? a) eqn:E.
+      + intro Hr. assert (taken = []) by (destruct taken; [reflexivity|]; simpl in Hr; apply app_eq_nil in Hr; destruct Hr; discriminate).
+        subst. simpl in L1. lia.
+      + intros _. apply (sq_loop_reach _ _ _ 0%nat) in L; [| left; lia | simpl; lia | unfold SQ_FUEL; lia | | lia].
+        * destruct L as [floor1 [F1 F2]]. rewrite filter_all in F2; [rewrite sum_sq_sort in F2; lia|].
+          intros u Hu. apply (proj1 (in_sq_sort _ _)) in Hu. apply filter_In in Hu. destruct Hu as [Hu Ht].
+          destruct (Hrows u Hu Ht) as [P1 P2]. unfold in_window, eff, in_fee, IN_SIZE in *.
+          apply andb_true_intro. split; [apply Z.leb_le | apply Z.ltb_lt]; nia.
+        * intros _. replace (filter (in_window 1 1) (sq_sort (filter utype0 rows))) with (@nil utxo); [reflexivity|].
+          symmetry. clear. induction (sq_sort (filter utype0 rows)); simpl; [reflexivity|].
+          unfold in_window at 1. destruct (1 <=? uamount a) eqn:A, (uamount a <? 1) eqn:B; simpl; try assumption. lia.
+    - intro Hlt. pose proof (sqlite_sound rows a 1 ltac:(lia)) as [S1 [S2 S3]].
+      destruct (sqlite_select fpb rows a 1) as [|u r] eqn:E; [reflexivity|exfalso].
+      assert (a <= sum_eff (u :: r)) by (apply S2; congruence).
+      assert (sum_eff (u :: r) <= sum_eff (filter utype0 rows)); [|lia].
+      apply submset_sum_le.
+      + intro x. specialize (S1 x).
+        destruct (in_dec utxo_eq_dec x (u :: r)) as [Hi|Hn].
+        * assert (utype0 x = true) by (apply S3; assumption).
+          rewrite cnt_filter_true by assumption. assumption.
+        * apply (count_occ_not_In utxo_eq_dec) in Hn. unfold cnt. lia.
+      + intros v Hv. apply filter_In in Hv. destruct Hv as [Hv Ht]. destruct (Hrows v Hv Ht). lia.
+  Qed.
+End Sq.
 
 (* ------------------------------------------------------------------ wallet bookkeeping *)
 Definition ids_of (w : wallet) : list N := map (fun e => uid (fst e)) w.
